@@ -41,8 +41,14 @@ impl KnowledgeBase {
     /// Add a rule to the knowledge base
     pub fn add_rule(&self, rule: Rule) -> Result<()> {
         let mut rules = self.rules.write().unwrap();
+        #[cfg(rre_verif)]
+        crate::verif_hooks::yield_point();
         let mut index = self.rule_index.write().unwrap();
+        #[cfg(rre_verif)]
+        crate::verif_hooks::yield_point();
         let mut version = self.version.write().unwrap();
+        #[cfg(rre_verif)]
+        crate::verif_hooks::yield_point();
 
         // Check for duplicate rule names
         if index.contains_key(&rule.name) {
@@ -84,8 +90,14 @@ impl KnowledgeBase {
     /// Remove a rule by name
     pub fn remove_rule(&self, rule_name: &str) -> Result<bool> {
         let mut rules = self.rules.write().unwrap();
+        #[cfg(rre_verif)]
+        crate::verif_hooks::yield_point();
         let mut index = self.rule_index.write().unwrap();
+        #[cfg(rre_verif)]
+        crate::verif_hooks::yield_point();
         let mut version = self.version.write().unwrap();
+        #[cfg(rre_verif)]
+        crate::verif_hooks::yield_point();
 
         if let Some(&position) = index.get(rule_name) {
             rules.remove(position);
@@ -106,7 +118,11 @@ impl KnowledgeBase {
     /// Get a rule by name
     pub fn get_rule(&self, rule_name: &str) -> Option<Rule> {
         let rules = self.rules.read().unwrap();
+        #[cfg(rre_verif)]
+        crate::verif_hooks::yield_point();
         let index = self.rule_index.read().unwrap();
+        #[cfg(rre_verif)]
+        crate::verif_hooks::yield_point();
 
         if let Some(&position) = index.get(rule_name) {
             rules.get(position).cloned()
@@ -151,8 +167,14 @@ impl KnowledgeBase {
     /// Enable or disable a rule
     pub fn set_rule_enabled(&self, rule_name: &str, enabled: bool) -> Result<bool> {
         let mut rules = self.rules.write().unwrap();
+        #[cfg(rre_verif)]
+        crate::verif_hooks::yield_point();
         let index = self.rule_index.read().unwrap();
+        #[cfg(rre_verif)]
+        crate::verif_hooks::yield_point();
         let mut version = self.version.write().unwrap();
+        #[cfg(rre_verif)]
+        crate::verif_hooks::yield_point();
 
         if let Some(&position) = index.get(rule_name) {
             if let Some(rule) = rules.get_mut(position) {
@@ -170,8 +192,14 @@ impl KnowledgeBase {
     /// Clear all rules
     pub fn clear(&self) {
         let mut rules = self.rules.write().unwrap();
+        #[cfg(rre_verif)]
+        crate::verif_hooks::yield_point();
         let mut index = self.rule_index.write().unwrap();
+        #[cfg(rre_verif)]
+        crate::verif_hooks::yield_point();
         let mut version = self.version.write().unwrap();
+        #[cfg(rre_verif)]
+        crate::verif_hooks::yield_point();
 
         rules.clear();
         index.clear();
